@@ -1,0 +1,18 @@
+//go:build verif
+
+package parentscheck
+
+// Machine-checked contracts for /verif (read as text by the VC generator; no code).
+//
+//@ const W32 = 4294967296
+//@ spec maxlam(ps dag.Events, n int) int = ite(n <= 0, 0, max(maxlam(ps, n-1), ps[n-1].Lamport()))
+//@ spec lamportOK(e dag.Event, ps dag.Events) bool = e.Lamport() == (maxlam(ps, len(ps)) + 1) % W32
+//@ spec selfOK(e dag.Event, ps dag.Events) bool = forall(i, 0, len(ps), (ps[i].Creator() == e.Creator()) == e.IsSelfParent(e.Parents()[i]))
+//@ spec seqOK(e dag.Event, ps dag.Events) bool = ((e.Seq() == 1) == (e.SelfParent() == nil)) && (e.SelfParent() != nil ==> e.IsSelfParent(ps[0].ID()) && e.Seq() == (ps[0].Seq() + 1) % W32)
+//@
+//@ func (*Checker).Validate
+//@   requires e != nil && spsem(e) && forall(i, 0, len(parents), parents[i] != nil)
+//@   panics   len(e.Parents()) != len(parents)
+//@   ensures  (result == nil) == (lamportOK(e, parents) && selfOK(e, parents) && seqOK(e, parents))
+//@   loop 1 invariant 0 <= _k && _k <= len(parents) && maxLamport == maxlam(parents, _k)
+//@   loop 2 invariant 0 <= _k && _k <= len(parents) && forall(i, 0, _k, (parents[i].Creator() == e.Creator()) == e.IsSelfParent(e.Parents()[i]))
